@@ -8,6 +8,7 @@ use super::{
         flow::FlowItem,
         list::{ListStyle, ListStylist},
     },
+    style::FoldStyle,
     util::is_comment_node,
     ArenaDoc, Context, PrettyPrinter,
 };
@@ -75,8 +76,9 @@ impl<'a> PrettyPrinter<'a> {
         // A comment anywhere in the import pins the order of its items: the one before the first item
         // belongs to that item as much as one inside the list does.
         let prefix_has_comment = prefix_part.iter().any(|node| is_comment_node(node));
+        let fold_style = self.get_fold_style(ctx, import);
         let import_items_doc =
-            self.convert_import_items(ctx, import_items_nodes, !prefix_has_comment);
+            self.convert_import_items(ctx, import_items_nodes, !prefix_has_comment, fold_style);
         // A line comment that ends the prefix must keep its line to itself.
         let ends_with_line_comment = prefix_part
             .iter()
@@ -96,6 +98,7 @@ impl<'a> PrettyPrinter<'a> {
         ctx: Context,
         mut import_items_nodes: Vec<&'a SyntaxNode>,
         may_reorder: bool,
+        fold_style: FoldStyle,
     ) -> ArenaDoc<'a> {
         // Sort import items if the configuration allows it.
         // The sorting is only applied if all nodes are not comments and if there are no duplicate names.
@@ -109,6 +112,7 @@ impl<'a> PrettyPrinter<'a> {
         }
         // Note that `ImportItem` does not implement `AstNode`.
         ListStylist::new(self)
+            .with_fold_style(fold_style)
             .process_iterable_impl(
                 ctx,
                 import_items_nodes.into_iter(),
